@@ -84,6 +84,7 @@ func c20Hazards() []string {
 		"fflush()", "fflush(\"f\")", "close(\"f\")", "system(\"c\")", "f(1, 2)", "f()", "f(f(1))", "f(x)(y)", "arr[1, 2]", "arr[1][2]",
 		"getline", "getline x", "getline < \"f\"", "getline x < \"f\"", "getline x < \"f\" y", "getline < (\"f\" y)", "\"c\" | getline", "\"c\" | getline x", "\"c\" x | getline", "(\"c\" x) | getline y",
 		"(getline x) > 0", "(\"c\" | getline x) > 0", "\"c\" | getline > 0", "getline arr[1]", "getline $1", "getline $(i + 1) < \"f\"", "x = getline", "!getline", "getline + 1",
+		"9223372036854775807", "9223372036854775808", "9223372036854775806.5", "1e18", "999999999999999999", "1000000000000000000", "1e15", "1e16", "123456789012345678", "18446744073709551616", "4611686018427387904", "0.1234567", "123456.7",
 		"@\"name\"", "@(x y)", "@x", "1e300", "1e-300", "1e999", "123456789012345678901234567890", ".5", "5.", "1e+5", "0.000001", "100000000000000000000", "1.5e300 * 1e300", "0x10", "011",
 		"1e", "1e+", "1 e", "x 1", "1 x", "x 1e", "\"\" \"\"", "\"a\" \"b\"",
 	}
@@ -97,6 +98,8 @@ func c20Hazards() []string {
 	stmts := []string{
 		"print", "print > \"f\"", "print >> \"f\"", "print | \"c\"", "print a, b > \"f\" x", "print a, b > (\"f\" x)", "print (a > b)", "print (a)(b)", "print (a, b) > \"f\"", "print(a, b)",
 		"print a b > c d", "print a > b ? c : d", "print (a > b) ? c : d", "print a, (b > c) > \"f\"", "print -1", "print - 1", "print a -1", "print a, -1", "print !a", "print 1, 2 | \"c\" x",
+		"print (a, b > c)", "print (a > b, c)", "print (a > b, c > d) > \"f\"", "printf(\"%d\", a > b)", "printf(\"%d %d\", a > b, c)", "print (a, b ? c > d : e)", "print (a, \"x\" | getline)", "print (a, (b > c))",
+		"print (a, b > c) | \"cmd\"", "print (x = a > b, 1)", "print (a, !b > c)", "print (a, b c > d e)", "print (a, b) > c > d",
 		"printf \"%d\", x", "printf(\"%d %d\", x, y) > \"f\"", "printf \"x\" | \"c\"", "printf (\"%s\", a)", "print > \"a\" \"b\"", "print $1, $2 > $3",
 		"if (a) b", "if (a) b; else c", "if (a) { b } else { c }", "if (a) if (b) c; else d", "if (a) { if (b) c } else d", "if (a) ; else c", "if (a) b; else ;", "if (a) {} else {}",
 		"while (a) b", "while (a) ;", "while (a) {}", "do b; while (a)", "do { b; c } while (a)", "do ; while (a)", "for (;;) break", "for (i = 0; i < 3; i++) ;", "for (i = 0; i < 3; i++) { continue }",
@@ -203,6 +206,13 @@ func init() {
 						text = x.Full(e, cx)
 					}
 					src, _ := c04Source(cxn, text, "")
+					if rng.Intn(4) == 0 {
+						// several parenthesised print arguments: a bare > inside them is a comparison
+						e2 := c04Random(rng, ops, 1+rng.Intn(3), false)
+						kw := []string{"print", "printf"}[rng.Intn(2)]
+						tail := []string{"", " > \"f\"", " | \"c\""}[rng.Intn(3)]
+						src = c04Prelude + "BEGIN { " + kw + " (" + x.Min(e, x.Ctx{}) + ", " + x.Min(e2, x.Ctx{}) + ")" + tail + " }\n"
+					}
 					c20Check(c, c20Case{Gen: "exprgen", Src: src})
 				case r < 70:
 					fam := c01Families[rng.Intn(len(c01Families))]
